@@ -3,7 +3,7 @@
    any other difference between the containers cannot change an answer. *)
 From Coq Require Import ZArith QArith List Bool Lia.
 Import ListNotations.
-From PV Require Import C12.Model C12.Proofs.
+From PV Require Import C12.Spec Generated.Mangle C12.Model C12.Proofs.
 Open Scope Z_scope.
 
 Definition same_visible (P P' : polygon) : Prop :=
@@ -21,7 +21,7 @@ Proof.
   intros (Hn & Hu & Hc). unfold in_polygon.
   assert (usencaps P ncaps = usencaps P' ncaps) as Eu by (unfold usencaps; rewrite Hn; reflexivity).
   rewrite <- Eu, <- Hu. apply fold_left_ext_in. intros acc i Hi. apply in_seq in Hi.
-  pose proof (usencaps_le P ncaps) as L.
+  rewrite usencaps_eq in Hi. pose proof (usencaps_le P ncaps) as L.
   assert (nth_error (pcaps P) i = nth_error (pcaps P') i) as ->; [|reflexivity].
   transitivity (nth_error (firstn (pn P) (pcaps P)) i).
   - rewrite nth_error_firstn. destruct (Nat.ltb_spec i (pn P)); [reflexivity|lia].
@@ -40,7 +40,7 @@ Lemma in_window_storage_independent Ps Ps' ncaps pts : Forall2 same_visible Ps P
   in_window Ps ncaps pts = in_window Ps' ncaps pts.
 Proof.
   intro H. unfold in_window, in_window_idx. f_equal. f_equal.
-  generalize (map (fun _ : vec => -1) pts, 0). induction H as [|P P' Ps Ps' HP _ IH]; intro st; [reflexivity|].
+  generalize (map (fun _ : vec => gen_window_default) pts, gen_window_start). induction H as [|P P' Ps Ps' HP _ IH]; intro st; [reflexivity|].
   cbn [fold_left]. rewrite (window_step_same_visible ncaps pts st P P' HP). apply IH.
 Qed.
 
@@ -51,7 +51,7 @@ Lemma balkans_slice_wf bcaps blist :
   Forall wf_poly (balkans_slice bcaps blist).
 Proof.
   intro H. unfold balkans_slice. apply Forall_map. eapply Forall_impl; [|exact H].
-  intros [icap n] Hr. cbn [fst snd] in Hr. unfold wf_poly. cbn [pn pcaps].
+  intros [icap n] Hr. cbn [fst snd] in Hr. unfold wf_poly. rewrite balkans_poly_caps.
   rewrite slice_length by exact Hr. apply le_n.
 Qed.
 
